@@ -22,7 +22,7 @@ ASSUMPTIONS = [
     "Output case is compared case-insensitively (the property fixes which letters are exchanged, not the case).",
     "Translation input that is already encoded with a DNA alphabet (ACGT, ACGTN) is re-targeted by the library to the codon alphabet and is refused when that is not possible: for such input the oracle is 'the same protein as for the text, or an exception' (counted under raised_allowed), never a different protein.",
 ]
-REQUIRED_CLASSES = ["lower-case", "contains-N", "empty-row", "ascii", "ACGT", "ACGTn", "minus-strand", "length-one-interval", "stop-codon", "all-64-codons", "many-intervals", "genomic", "translate-encoded-input", "lazily-read-entries"]
+REQUIRED_CLASSES = ["lower-case", "contains-N", "empty-row", "ascii", "ACGT", "ACGTn", "minus-strand", "length-one-interval", "stop-codon", "all-64-codons", "many-intervals", "genomic", "translate-encoded-input", "lazily-read-entries", "indexed-fasta-in-another-order"]
 BOUNDS = {"quick": "revcomp: all 11110 strings of length <= 4 in ASCII and ACGTn; translation: 64 codons + 4096 pairs + 4096 strided triples; 300 sampled per family",
           "thorough": "same exhaustive cores in all three encodings; all 262144 codon triples; 10000 sampled per family"}
 BUDGET_S = {"quick": 200, "thorough": 1500}
@@ -69,6 +69,8 @@ def classify(case):
             cl.append("minus-strand")
         if len(case["ivs"]) >= 17:
             cl.append("many-intervals")
+        if case.get("fasta_order"):
+            cl.append("indexed-fasta-in-another-order")
         nontrivial = len({z for _, _, _, z in case["ivs"]}) == 2
     elif k == "translate":
         if any("*" in "".join(CODON[r[i:i + 3].upper()] for i in range(0, len(r), 3)) for r in rows):
@@ -136,6 +138,22 @@ def check(case, stats=None):
                 bad = next(i for i, (g, w) in enumerate(zip(got, want)) if g != w) if len(got) == len(want) else None
                 return [Failure("C14:genomic-sequence-stranded", {"n_intervals": len(ivs), "first_wrong_row": bad,
                                                                   "expected": want[:6], "actual": got[:6]})]
+            if case.get("fasta_order"):
+                # the same extraction from a genome backed by an indexed FASTA whose record order differs from the genome's label order
+                import tempfile
+                order = [n for n in case["fasta_order"] if n in seqs] + [n for n in seqs if n not in case["fasta_order"]]
+                with tempfile.TemporaryDirectory(prefix="pbtc14", dir="/dev/shm" if os.path.isdir("/dev/shm") else None) as d_:
+                    fa = os.path.join(d_, "g.fa")
+                    with open(fa, "w") as fh:
+                        for j_, n in enumerate(order):
+                            wrap = 7 + j_
+                            fh.write(">" + n + "\n" + "\n".join(seqs[n][i:i + wrap] for i in range(0, len(seqs[n]), wrap)) + "\n")
+                    g2 = bnp.Genome.from_file(fa, sort_names=bool(case.get("sort_names")))
+                    got = [x.upper() for x in g2.read_sequence()[g2.get_intervals(t, stranded=True)].tolist()]
+                if got != want:
+                    bad = next(i for i, (g, w) in enumerate(zip(got, want)) if g != w) if len(got) == len(want) else None
+                    return [Failure("C14:genomic-sequence-stranded:indexed-fasta", {"n_intervals": len(ivs), "first_wrong_row": bad, "fasta_order": order,
+                                                                                  "sort_names": bool(case.get("sort_names")), "expected": want[:6], "actual": got[:6]})]
         elif k == "translate":
             rows = case["rows"]
             want = ["".join(CODON[r[i:i + 3].upper()] for i in range(0, len(r), 3)) for r in rows]
@@ -261,7 +279,11 @@ def sampled_case(draw, kind, maxlen):
             c = draw(st.sampled_from(names))
             a = draw(st.integers(0, len(seqs[c]) - 1))
             ivs.append([c, a, draw(st.integers(a + 1, len(seqs[c]))), draw(st.sampled_from("+-"))])
-        return {"kind": kind, "seqs": seqs, "ivs": ivs}
+        case = {"kind": kind, "seqs": seqs, "ivs": ivs}
+        if kind == "genomic" and draw(st.booleans()):
+            case["fasta_order"] = draw(st.permutations(list(names)))
+            case["sort_names"] = draw(st.booleans())
+        return case
     codon = st.text(alphabet="TCAGtcag", min_size=3, max_size=3)
     rows = draw(st.lists(st.lists(codon, max_size=max(1, maxlen // 3)).map("".join), min_size=1, max_size=6))
     return {"kind": "translate", "rows": rows, "entry": draw(st.booleans()), "encoded": draw(st.sampled_from([None, "ACGT", "ACGTN"])),
